@@ -28,6 +28,8 @@ Ev == T.ev[l]
 RelNames == {"Linear", "ScalarEqualsVectorZ", "TotalIsSumOfParts", "MatchesDirectSum", "HBConsistent", "UnitChoice",
              "LoopLinear", "LoopScaling", "LoopSymmetry", "AppliedPlusInduced",
              "HistoryIndependent",   \* a query on a Solution that has answered other queries = the same query on a freshly loaded one
+             "LoopTranslation",      \* A(r; centre c) = A(r - c; centre 0), also through the CurrentLoop Parameter
+             "AppliedAtFrameTime",   \* the applied part of a loaded frame is the Parameter at THAT frame's recorded time
              "InputFormIndependent"} \* integer / list / (m,2)+zs / (m,3) forms of the same points give the same answer
 Abs(x) == IF x < 0 THEN -x ELSE x
 Related(a, b, tol) == Len(a) = Len(b) /\ \A j \in 1..Len(a) : Abs(a[j] - b[j]) <= tol
